@@ -964,7 +964,69 @@ def add_subset_options(ds, rng):
         cfg["elev"] = rng_range(elevs)
     if rng.random() < 0.3:
         cfg["obsrange"] = (rng.choice([-1.0, 0.0, 0.5, 1.0]), rng.choice([1.0, 1.5, 2.0, 3.0, 4.5]))
+        return with_obs_disagreement(DS(ds.inputs, cfg))
     return DS(ds.inputs, cfg)
+
+
+def obs_agree(ds):
+    """ObsAgree: the inputs that store observations store equal values wherever both are non-missing"""
+    ref = {}
+    name = field_name(ds.cfg, "obs")
+    for I in ds.inputs:
+        if name in I["fields"]:
+            a = np.asarray(I["fields"][name], float).reshape(len(I["times"]), len(I["leads"]), len(I["locs"]))
+            for it, t in enumerate(I["times"]):
+                for il, l in enumerate(I["leads"]):
+                    for ix, x in enumerate(I["locs"]):
+                        v = a[it, il, ix]
+                        if not math.isnan(v):
+                            if (t, l, x[0]) in ref and ref[(t, l, x[0])] != v:
+                                return False
+                            ref.setdefault((t, l, x[0]), v)
+    return True
+
+
+def with_obs_disagreement(ds, p=0.25):
+    """a dataset with -obsrange: with probability p the inputs that store their OWN observations get observations that
+    DISAGREE across the ends of the (inclusive) range in common cases: inside in one file and outside in another, and
+    exactly lo / exactly hi in one file against just outside in the other (files verified against differently
+    quality-controlled observations; the tool never requires them to agree).  -obsrange then discards a case for an
+    input iff THAT input's own observation lies outside.  The random stream is derived from the dataset itself: the
+    caller's rng is not advanced, every other op line stays the one it was."""
+    if ds.cfg.get("obsrange") is None or ds.cfg.get("obsfield") is not None:
+        return ds
+    r = random.Random("obsdisagree " + enc_op(ds, []))
+    lo, hi = ds.cfg["obsrange"]
+    own = [j for j, I in enumerate(ds.inputs) if "obs" in I["fields"]]
+    # (about half of the datasets have two inputs with own observations and a common case: p is doubled for those, so
+    #  that about a quarter of ALL datasets with an obs range carry a disagreement)
+    if len(own) < 2 or r.random() >= 2 * p:
+        return ds
+    inputs = [dict(I, fields={k: np.array(v, float) for k, v in I["fields"].items()}) for I in ds.inputs]
+    pairs = [(lo, lo - 0.5), (hi + 0.5, hi), ((lo + hi) / 2, hi + 1.0), (lo - 1.0, (lo + hi) / 2), (lo, hi), (lo - 0.5, hi + 0.5)]
+    where = {}
+    for j in own:
+        I = inputs[j]
+        for it, t in enumerate(I["times"]):
+            for il, l in enumerate(I["leads"]):
+                for ix, x in enumerate(I["locs"]):
+                    where.setdefault((t, l, x[0]), []).append((j, it, il, ix))
+    keys = sorted(k for k, v in where.items() if len(v) >= 2)
+    r.shuffle(keys)
+    for n, key in enumerate(keys):
+        if n >= 2 and r.random() < 0.5:
+            continue
+        cells = list(where[key])
+        r.shuffle(cells)
+        a, b = pairs[n] if n < len(pairs) else r.choice(pairs)
+        if r.random() < 0.5:
+            a, b = b, a
+        for m, (j, it, il, ix) in enumerate(cells):
+            arr = inputs[j]["fields"]["obs"]
+            if math.isnan(arr[it, il, ix]) and r.random() < 0.7:
+                continue                      # (missing stays missing most of the time)
+            arr[it, il, ix] = a if m == 0 else (b if m == 1 else r.choice([a, b]))
+    return DS(inputs, dict(ds.cfg))
 
 
 # ------------------------------------------------------------------ request histories (C18)
